@@ -34,7 +34,22 @@ pub struct XferCfg {
     /// the application on this side lets go of its Multiplexor handle at some point after all its
     /// writers have finished (streams live on); every such point is explored (fault budget 1)
     pub drop_mux_when_writers_done: Option<usize>,
+    pub extra: XferExtra,
     pub horizon: u64,
+}
+
+/// Rarely used dimensions of a transfer scenario.
+#[derive(Clone, Copy, Debug)]
+pub struct XferExtra {
+    /// A sends this many datagrams to B, where NOBODY takes datagrams out (only without the ping-pong)
+    pub dgram_flood: usize,
+    /// scripted flow-id generators (empty = a counter that never collides)
+    pub rng_a: &'static [u32],
+    pub rng_b: &'static [u32],
+}
+
+impl XferExtra {
+    pub const NONE: Self = Self { dgram_flood: 0, rng_a: &[], rng_b: &[] };
 }
 
 impl XferCfg {
@@ -49,13 +64,15 @@ impl XferCfg {
             .map(|s| format!("s{}(open by {}): opener {} / acceptor {}", s.tag, if s.opener == 0 { "A" } else { "B" }, plan_str(&s.opener_plan), plan_str(&s.acceptor_plan)))
             .collect();
         format!(
-            "A(rwnd={},thr={}) B(rwnd={},thr={}) cap={} {}",
+            "A(rwnd={},thr={}) B(rwnd={},thr={}) cap={} {}{}{}",
             self.a.0,
             self.a.1,
             self.b.0,
             self.b.1,
             if self.cap == 0 { "inf".to_string() } else { self.cap.to_string() },
-            ss.join("; ")
+            ss.join("; "),
+            if self.extra.dgram_flood > 0 { format!("; A sends {} datagrams that nobody at B takes out", self.extra.dgram_flood) } else { String::new() },
+            if self.extra.rng_a.is_empty() && self.extra.rng_b.is_empty() { String::new() } else { format!("; flow-id draws A={:?} B={:?}", self.extra.rng_a, self.extra.rng_b) }
         )
     }
 }
@@ -83,8 +100,8 @@ pub const W_TRACING_ON: u64 = 64;
 
 pub fn build(cfg: &XferCfg) -> World {
     let cap = if cfg.cap == 0 { UNBOUNDED_CAP } else { cfg.cap };
-    let a = SideCfg { opts: opts(cfg.a.0, cfg.a.1).stream_buffer_size(cfg.stream_buffer.max(1)).datagram_buffer_size(cfg.dgram_buffer.max(1)), rng: vec![] };
-    let b = SideCfg { opts: opts(cfg.b.0, cfg.b.1).stream_buffer_size(cfg.stream_buffer.max(1)).datagram_buffer_size(cfg.dgram_buffer.max(1)), rng: vec![] };
+    let a = SideCfg { opts: opts(cfg.a.0, cfg.a.1).stream_buffer_size(cfg.stream_buffer.max(1)).datagram_buffer_size(cfg.dgram_buffer.max(1)), rng: cfg.extra.rng_a.to_vec() };
+    let b = SideCfg { opts: opts(cfg.b.0, cfg.b.1).stream_buffer_size(cfg.stream_buffer.max(1)).datagram_buffer_size(cfg.dgram_buffer.max(1)), rng: cfg.extra.rng_b.to_vec() };
     let mut w = World::two(cap, &a, &b);
     for side in 0..2 {
         let plans: BTreeMap<Tag, EndPlan> = cfg.streams.iter().filter(|s| s.opener != side).map(|s| (s.tag, s.acceptor_plan.clone())).collect();
@@ -100,6 +117,10 @@ pub fn build(cfg: &XferCfg) -> World {
         let list = (0..cfg.dgram_pingpong).map(|i| crate::apps::dgram(7 + i as u32, b"dg", 53, &[i as u8, 0xd0])).collect();
         w.spawn_dgram_receiver(1, "dgecho.b", usize::MAX, true);
         w.spawn_dgram_sender(0, "dgping.a", list, cfg.dgram_pingpong, true);
+    }
+    if cfg.extra.dgram_flood > 0 {
+        let list = (0..cfg.extra.dgram_flood).map(|i| crate::apps::dgram(90 + i as u32, b"fl", 9, &[i as u8, 0xf1])).collect();
+        w.spawn_dgram_sender(0, "dgflood.a", list, 0, false);
     }
     w
 }
